@@ -25,7 +25,7 @@ ASSUMPTIONS = [
 COMPONENTS = {'real': ['yldprolog.engine query/load_script_from_string/load_script_from_file/register_function/chain_functions/assert_fact/clear', 'compiler output for the snippets'],
               'stub': ['file system seen by load_script_from_file (in-memory fake open, injects I/O errors)', 'native predicates (tagged answers)'],
               'oracle': ['definition-table model: per name/arity facts first, then the chain of definitions registered for exactly that arity, variadic only if none, each definition with its own cut']}
-REQUIRED_PROBES = ('suspended_call_resumed_after_change', 'op_load_overwrite', 'op_load_append', 'op_loadfail_syntax', 'op_loadfail_raise', 'op_loadfail_io', 'op_reg_inferred', 'op_reg_explicit',
+REQUIRED_PROBES = ('op_regfail', 'suspended_call_resumed_after_change', 'op_load_overwrite', 'op_load_append', 'op_loadfail_syntax', 'op_loadfail_raise', 'op_loadfail_io', 'op_reg_inferred', 'op_reg_explicit',
                    'op_reg_variadic', 'op_assert', 'op_clear', 'chain_of_2plus_definitions', 'variadic_used', 'variadic_shadowed_by_exact', 'reserved_name_registered',
                    'load_via_file')
 
@@ -98,8 +98,11 @@ def gen(seed, tier):
         elif k < 0.9:
             name, ar = rng.choice([('p', 1), ('p', 1), ('r', 1), ('sub', 1), ('main', 1), ('p', 2), ('q', 2), ('is_a', 1)])
             ops.append(['qstart', name, ar])
-        elif k < 0.97:
+        elif k < 0.96:
             ops.append(['qstep', rng.randrange(2)])
+        elif k < 0.975:
+            name, ar = rng.choice(REG_TARGETS)
+            ops.append(['regfail', name, rng.choice(('not-callable', 'no-signature'))])
         else:
             ops.append(['clear'])
     return {'ops': ops}
@@ -118,6 +121,8 @@ def show_op(op):
         return 'call %s/%d and take its first answer (keep the generator suspended)' % (op[1], op[2])
     if op[0] == 'qstep':
         return 'next answer of suspended call #%d' % op[1]
+    if op[0] == 'regfail':
+        return 'register_function %s with an object whose arity cannot be inferred (%s): raises' % (op[1], op[2])
     return op[0]
 
 
@@ -308,6 +313,14 @@ def execute(plan):
                     f = {0: (lambda i: (lambda: i()))(impl), 1: (lambda i: (lambda a: i(a)))(impl), 2: (lambda i: (lambda a, b: i(a, b)))(impl), 3: (lambda i: (lambda a, b, c: i(a, b, c)))(impl)}[ar]
                     yp.register_function(name, f, arity=None if style == 'inferred' else ar)
                     m.defs[(name, ar)] = [['py', tag]]
+            elif kind == 'regfail':
+                log.count('op_regfail')
+                try:
+                    yp.register_function(op[1], 42 if op[2] == 'not-callable' else type('NoSig', (), {'__call__': None})())
+                    raised = False
+                except Exception:
+                    raised = True
+                log.ev('regfail', op[1], op[2], raised)
             elif kind == 'assert':
                 _, name, ar, front = op
                 counter[0] += 1
